@@ -47,6 +47,7 @@ inductive ErrKind where
   | unknownEvent      -- EdzedUnknownEvent escaping from an entry action
   | assertion         -- non-Goto event for an uninitialised FSM
   | invalidState      -- EdzedInvalidState: get_state() of an uninitialised FSM
+  | typeError         -- TypeError: refused keyword arguments of a constructor, None / 2
   | fuel              -- model only: `advance` ran out of fuel (never for reachable states)
   deriving DecidableEq, Repr, Inhabited
 
@@ -499,6 +500,48 @@ def timerCfg (tOn tOff : Dur) (restartable : Bool) (initState : String := Gen.ti
     conds := if restartable then [] else [("start", .stateNe "on"), ("stop", .stateNe "off")]
     outFn := .isState "on"
     initState := initState }
+
+/-- the keyword arguments of `Timer(…)` that concern durations; `none` = not given, `some .none` = given
+    as None -/
+structure TimerKw where
+  tPeriod : Option Dur := none
+  tOn : Option Dur := none
+  tOff : Option Dur := none
+  deriving DecidableEq, Repr, Inhabited
+
+/-- `utils.time_period` on a duration value -/
+def timePeriodDur : Dur → Except ErrKind Dur
+  | .bad => .error .valueError
+  | d => .ok (clamp d)
+
+/-- `period / 2` (durations are even numbers of µs; None / 2 raises) -/
+def halfDur : Dur → Except ErrKind Dur
+  | .us n => .ok (.us (n / 2))
+  | .inf => .ok .inf
+  | _ => .error .typeError
+
+/-- `Timer.__init__`, the rewriting of the keyword arguments: `t_period` excludes `t_on` / `t_off` and
+    becomes `t_on = t_off = period / 2` -/
+def timerKwargs (kw : TimerKw) : Except ErrKind TimerKw :=
+  match kw.tPeriod with
+  | some p =>
+    if kw.tOn.isSome || kw.tOff.isSome then .error .typeError
+    else match timePeriodDur p with
+      | .error e => .error e
+      | .ok d =>
+        match halfDur d with
+        | .error e => .error e
+        | .ok h => .ok { tOn := some h, tOff := some h }
+  | none => .ok kw
+
+/-- `Timer(**kw, restartable=…, initdef=…)`: `Timer.__init__`, then `FSM.__init__` (which converts the
+    `t_` arguments with `time_period`) -/
+def timerNew (kw : TimerKw) (restartable : Bool) (initState : String := Gen.timerDefault) : Except ErrKind Cfg :=
+  match timerKwargs kw with
+  | .error e => .error e
+  | .ok k =>
+    if k.tOn = some .bad || k.tOff = some .bad then .error .valueError
+    else .ok (timerCfg (k.tOn.getD .none) (k.tOff.getD .none) restartable initState)
 
 def inputExpTable : Table :=
   { states := Gen.inputExpStates, events := Gen.inputExpEvents, trans := Gen.inputExpTrans
